@@ -214,13 +214,30 @@ def map_events(args) -> list:
         b = z.get_zone_interval(b.start - Duration.epsilon)
         back.append(b)
     ivs = list(reversed(back)) + [first_iv]
+    stuck = []
+
+    def step():
+        """The interval at the end of the last one; False when the zone answers with an interval that does not contain it."""
+        at = ivs[-1].end
+        nxt = z.get_zone_interval(at)
+        if at not in nxt:
+            stuck.append((at, nxt))
+            return False
+        ivs.append(nxt)
+        return True
+
     while ivs[-1].has_end and ivs[-1].end < stop and len(ivs) < 30000:
-        ivs.append(z.get_zone_interval(ivs[-1].end))
-    for _ in range(6):
-        if not ivs[-1].has_end:
+        if not step():
             break
-        ivs.append(z.get_zone_interval(ivs[-1].end))
+    for _ in range(6):
+        if not ivs[-1].has_end or stuck:
+            break
+        step()
     evs = [{"op": "zone", "id": zid, "min_off": z.min_offset.seconds, "max_off": z.max_offset.seconds}]
+    for at, nxt in stuck:
+        # evidence for the verdict: the interval answered for an instant does not contain it
+        evs.append({"op": "requery", "at": t3i(at), "start": t3i(nxt._raw_start), "end": t3i(nxt._raw_end), "wall": nxt.wall_offset.seconds,
+                    "same_as_walk": False, "offset_agrees": False})
     idxs = [k for k in range(1, len(ivs)) if start <= ivs[k].start <= stop]
     if max_tr and len(idxs) > max_tr:
         keep = set(rnd.sample(idxs, max_tr))
